@@ -66,6 +66,28 @@ pub fn content_of(items: &[Item]) -> Vec<u8> {
     rlp::enc_list_payload(&rlp::enc_items(items))
 }
 
+/// `client` values of every list shape: a LIST where a byte string belongs (3rd, 1st, 2nd place), four entries, an
+/// empty list, empty strings, one-byte strings around 0x80, a 56-byte entry (long-form header inside the list)
+pub fn client_shapes() -> Vec<Item> {
+    let sv = |x: &[u8]| Item::S(x.to_vec());
+    vec![
+        Item::L(vec![sv(b"geth"), sv(b"1.14.0"), Item::L(vec![sv(b"linux"), sv(b"amd64")])]),
+        Item::L(vec![sv(b"geth"), sv(b"1.14.0"), Item::L(vec![])]),
+        Item::L(vec![Item::L(vec![sv(b"geth")]), sv(b"1.14.0"), sv(b"x")]),
+        Item::L(vec![sv(b"geth"), Item::L(vec![]), sv(b"x")]),
+        Item::L(vec![sv(b"geth"), Item::L(vec![sv(b"1")])]),
+        Item::L(vec![Item::L(vec![]), Item::L(vec![])]),
+        Item::L(vec![sv(b"a"), sv(b"b"), sv(b"c"), sv(b"d")]),
+        Item::L(vec![sv(b"a"), sv(b"b"), sv(b"c"), Item::L(vec![])]),
+        Item::L(vec![]),
+        Item::L(vec![sv(b"only")]),
+        Item::L(vec![sv(b""), sv(b""), sv(b"")]),
+        Item::L(vec![sv(b"g"), sv(&[0x7f]), sv(&[0x80])]),
+        Item::L(vec![sv(&[b'n'; 56]), sv(b"v"), Item::L(vec![])]),
+        Item::L(vec![sv(&[b'n'; 56]), sv(b"v"), sv(&[b'b'; 60])]),
+    ]
+}
+
 /// Keys used by the generators; a few per scheme, including edge scalars.
 pub fn key_pool(scheme: Scheme, seed: u64) -> Vec<RefKey> {
     let mut v = Vec::new();
